@@ -447,8 +447,12 @@ class KCenters(Contract):
         def after_assign(L, V):
             A = V.old
             k0, pos, asg, D = L.len(A['init_centers']), V.ghost['pos'], V['assignments'], V['distances']
-            return [dict(name='initial-center-frames-at-distance-0', fact=L.forall(0, k0, lambda c: D[pos(c)] == 0)),
-                    dict(name='initial-center-frames-own-label', fact=L.forall(0, k0, lambda c: asg[pos(c)] == c))]
+            base = ['pre:initial-centers-are-frames-of-the-data', 'pre:initial-centers-distinct', 'pre:distinct-points', 'pre:has-initial-centers',
+                    'assign_to_nearest_center:lengths', 'assign_to_nearest_center:labels-in-range', 'assign_to_nearest_center:distance-is-exact',
+                    'assign_to_nearest_center:distance-is-minimal']
+            return [dict(name='initial-center-frames-at-distance-0', fact=L.forall(0, k0, lambda c: D[pos(c)] == 0), using=base),
+                    dict(name='initial-center-frames-own-label', fact=L.forall(0, k0, lambda c: asg[pos(c)] == c),
+                         using=base + ['cut:initial-center-frames-at-distance-0'])]
 
         def after_find(L, V):
             A = V.old
@@ -456,15 +460,21 @@ class KCenters(Contract):
             asg = V['assignments']
             m = L.len(ctr)
             J = FindClusterCenters.label_idx(L, asg)
-            return [dict(name='found-labels-at-least-position', lo=0, hi=m, P=lambda t: L.forall(0, t, lambda i: asg[ctr[i]] >= i)),
-                    dict(name='every-initial-label-has-a-found-center', fact=L.forall(0, k0, lambda c: L.And(L.between(0, J(pos(c)), m), asg[ctr[J(pos(c))]] == c))),
+            loc = ['pre:initial-centers-are-frames-of-the-data', 'pre:has-initial-centers', 'pre:distinct-points', 'assign_to_nearest_center:lengths',
+                   'assign_to_nearest_center:labels-in-range', 'assign_to_nearest_center:distance-is-exact', 'find_cluster_centers:members-in-data',
+                   'find_cluster_centers:labels-increasing', 'find_cluster_centers:every-label-present', 'find_cluster_centers:smallest-distance-member',
+                   'cut:initial-center-frames-at-distance-0', 'cut:initial-center-frames-own-label']
+            return [dict(name='found-labels-at-least-position', lo=0, hi=m, P=lambda t: L.forall(0, t, lambda i: asg[ctr[i]] >= i), using=loc),
+                    dict(name='every-initial-label-has-a-found-center', fact=L.forall(0, k0, lambda c: L.And(L.between(0, J(pos(c)), m), asg[ctr[J(pos(c))]] == c)), using=loc),
                     dict(name='labels-of-found-centers-are-their-positions', lo=0, hi=m,
                          P=lambda t: L.forall(0, t, lambda i: asg[ctr[i]] == i),
                          using=['cut:found-labels-at-least-position', 'cut:every-initial-label-has-a-found-center',
                                 'find_cluster_centers:labels-increasing', 'find_cluster_centers:members-in-data',
                                 'assign_to_nearest_center:labels-in-range', 'assign_to_nearest_center:lengths']),
-                    dict(name='one-index-per-initial-center', fact=m == k0),
-                    dict(name='indices-are-the-initial-frames', fact=L.forall(0, k0, lambda c: ctr[c] == pos(c)))]
+                    dict(name='one-index-per-initial-center', fact=m == k0,
+                         using=loc + ['cut:found-labels-at-least-position', 'cut:every-initial-label-has-a-found-center', 'cut:labels-of-found-centers-are-their-positions']),
+                    dict(name='indices-are-the-initial-frames', fact=L.forall(0, k0, lambda c: ctr[c] == pos(c)),
+                         using=loc + ['cut:labels-of-found-centers-are-their-positions', 'cut:one-index-per-initial-center'])]
         return {'call:assign_to_nearest_center': after_assign, 'call:find_cluster_centers': after_find}
 
     @property
